@@ -119,7 +119,9 @@ func parseRelation(input *input, dependency *Dependency) error {
 		peek := input.Peek()
 		switch peek {
 		case 0, ',': /* EOF, or done with this relation! yay */
-			dependency.Relations = append(dependency.Relations, *ret)
+			if len(ret.Possibilities) != 0 { /* not for a lone "|" */
+				dependency.Relations = append(dependency.Relations, *ret)
+			}
 			return nil
 		case '|': /* Next Possi */
 			input.Next()
